@@ -136,7 +136,11 @@ ViewFails(e) ==
       W2 == Len(v) < 256 => o.dbg = Ascii(v)              \* the >= 256 summary form is documented and not constrained
       W3 == \A i \in 1..Len(o.kmers) : o.kmers[i][2] = Sub(v, o.kmers[i][1] + 1, Len(o.kmers[i][2]))
       W4 == o.self_eq /\ (meta.first \/ (o.eq_prev = (regs[1] = v)))
-  IN {c \in {"W1", "W2", "W3", "W4"} : ~(CASE c = "W1" -> W1 [] c = "W2" -> W2 [] c = "W3" -> W3 [] c = "W4" -> W4)}
+      \* the owned copy IS that string: equal (and hashing equal) to the same bases built by from_bytes, and it keeps behaving
+      \* like it when it grows
+      W5 == o.owned_eq /\ o.owned_hash_eq /\ o.owned_push = v \o <<2, 1, 3>>
+  IN {c \in {"W1", "W2", "W3", "W4", "W5"} :
+        ~(CASE c = "W1" -> W1 [] c = "W2" -> W2 [] c = "W3" -> W3 [] c = "W4" -> W4 [] c = "W5" -> W5)}
 
 HammingFails(e) ==
   IF e.panic # "" THEN {"PANIC"} ELSE
